@@ -382,6 +382,17 @@ def m_iter_rev(c):
     it = to_iter(c.st, c.args[0])
     if it.kind in SIMPLE:
         return IterObj(list(reversed(it.items[it.pos:])), 0, 'list')
+    if it.kind == 'range':
+        # a range over integers: reverse it once both ends are known (bounded number of elements)
+        cur, end, incl = it.extra[:3]
+        lo = c.st.concretize(cur.v, 0, 1 << 16, 'rev range start') if not z3.is_bv_value(z3.simplify(cur.v)) else z3.simplify(cur.v).as_long()
+        hi_t = z3.simplify(end.v)
+        if not z3.is_bv_value(hi_t):
+            raise Unsupported('rev on a range with a symbolic end')
+        hi = hi_t.as_long() + (1 if incl else 0)
+        if hi - lo > 4096:
+            raise Unsupported('rev on a long range')
+        return IterObj([Int(z3.BitVecVal(i, cur.width), cur.signed) for i in reversed(range(lo, max(lo, hi)))], 0, 'list')
     raise Unsupported('rev on adaptor ' + it.kind)
 
 
